@@ -631,6 +631,11 @@ theorem C16_guards_as_modelled : Nix.Generated.FrameShape.guards = Nix.Frame.Sha
     looked up in the file on every schema read -/
 theorem C16_calls_as_modelled : Nix.Generated.FrameShape.calls = Nix.Frame.Shape.calls := rfl
 
+/-- the read path of every DataFrame read — `DataSet.__getitem__`, `_read_data`, `H5DataSet.read_data` and
+    `_convert_string_cols` — is, statement by statement, the code `Pure/FrameBytes.lean` models (selection, then the
+    conversion of the text fields: single row / row by row / one-field selection) -/
+theorem C16_read_path_as_modelled : Nix.Generated.FrameShape.storage = Nix.Frame.Shape.storage := rfl
+
 -- ---------------------------------------------------------------------------------------
 -- non-vacuity: a concrete created frame, accepted and refused operations
 
